@@ -7,7 +7,8 @@
 #   SCHEDULE_AHEAD - SCHEDULE_LATENCY       converted to the uint8_t frame_offset parameter
 #   EBUSY                                   of the <errno.h> the file is compiled with
 #   widths/signedness of evt->fn, evt->p3 and of the parameters of sched_gsmtime()/sched_gsmtime_execute()
-#   GSM_MAX_FN                              (osmocom/gsm/gsm_utils.h, the modulus of l1s_time_inc in sync.c)
+#   GSM_MAX_FN                              (osmocom/gsm/gsm_utils.h: the modulus of l1s_time_inc in sync.c and of
+#                                           fn_sched = (fn + SCHEDULE_AHEAD) % GSM_MAX_FN in sched_gsmtime_execute)
 import os
 from lib import vf, cbuild
 
@@ -33,6 +34,7 @@ int main(void)
 	printf("w_fn %u %d\n", (unsigned) sizeof(e.fn) * 8, SGN(__typeof__(e.fn)));
 	printf("w_p3 %u %d\n", (unsigned) sizeof(e.p3) * 8, SGN(__typeof__(e.p3)));
 	printf("w_sum %u %d\n", (unsigned) sizeof(e.fn + SCHEDULE_AHEAD) * 8, SGN(__typeof__(e.fn + SCHEDULE_AHEAD)));
+	printf("w_mod %u %d\n", (unsigned) sizeof((e.fn + SCHEDULE_AHEAD) % GSM_MAX_FN) * 8, SGN(__typeof__((e.fn + SCHEDULE_AHEAD) % GSM_MAX_FN)));
 	printf("max_fn %lu\n", (unsigned long) GSM_MAX_FN);
 	return 0;
 }
@@ -68,7 +70,9 @@ def generate(run):
            "def sgWidth_fn : Nat × Bool := (%d, %s)\n"
            "def sgWidth_p3 : Nat × Bool := (%d, %s)\n"
            "def sgWidth_sum : Nat × Bool := (%d, %s)\n"
-           "/-- `GSM_MAX_FN` (osmocom/gsm/gsm_utils.h): the modulus of the frame counter (`l1s_time_inc`, sync.c) -/\n"
+           "-- (bits, signed) of the expression `(evt->fn + SCHEDULE_AHEAD) %% GSM_MAX_FN`\n"
+           "def sgWidth_mod : Nat × Bool := (%d, %s)\n"
+           "/-- `GSM_MAX_FN` (osmocom/gsm/gsm_utils.h): the modulus of the frame counter (`l1s_time_inc`, sync.c) and of `fn_sched` in `sched_gsmtime_execute` -/\n"
            "def sgGsmMaxFn : Nat := %d\n"
            "/-- `sched_gsmtime` has the type `int (const struct tdma_sched_item *, uint32_t, uint16_t)` and\n"
            "`sched_gsmtime_execute` the type `int (uint32_t)` -/\n"
@@ -78,6 +82,7 @@ def generate(run):
               kv["w_fn"][0], "true" if kv["w_fn"][1] else "false",
               kv["w_p3"][0], "true" if kv["w_p3"][1] else "false",
               kv["w_sum"][0], "true" if kv["w_sum"][1] else "false",
+              kv["w_mod"][0], "true" if kv["w_mod"][1] else "false",
               kv["max_fn"][0], "true" if kv["sig_sched"][0] else "false", "true" if kv["sig_exec"][0] else "false"))
     vf.write_if_changed(os.path.join(vf.LEAN, "OsmoVerif/Gen/SchedGsmtime.lean"), txt)
     return kv
